@@ -28,6 +28,7 @@ func vMakeScript() (script []string, nick, channel, user string) {
 	script = []string{
 		":srv 001 " + nick + " :Welcome",
 		":" + nick + "!i@h JOIN " + channel,
+		"PING :" + user,
 		":" + user + "!i@h JOIN " + channel,
 		":" + user + "!i@h PRIVMSG " + channel + " :hi",
 	}
@@ -73,11 +74,14 @@ func (s *vSess) applied(seq int) bool {
 		return s.conn.Me().Nick == s.nick
 	case 1:
 		return s.conn.st.GetChannel(s.channel) != nil
-	case 2:
+	case 3:
 		return s.conn.st.GetNick(s.user) != nil
 	}
 	return true
 }
+
+// stateful: script lines whose effect on the client / tracker the harness can observe.
+func vStateful(seq int) bool { return seq == 0 || seq == 1 || seq == 3 }
 
 func (s *vSess) anyActive() bool {
 	for _, n := range s.activeFG {
@@ -129,9 +133,13 @@ func (s *vSess) handler(id int, fg bool) HandlerFunc {
 		}
 		if beh >= 1 {
 			vYield()
-			if fg && s.track && seq+1 < s.n {
+			if fg && s.track {
 				s.mu.Lock()
-				vAssert(!s.applied(seq+1), "tracker-not-ahead-while-fg-handler-runs")
+				for later := seq + 1; later < s.n; later++ {
+					if vStateful(later) {
+						vAssert(!s.applied(later), "tracker-not-ahead-while-fg-handler-runs")
+					}
+				}
 				s.mu.Unlock()
 			}
 		}
@@ -196,7 +204,7 @@ func VerifSession() {
 	if s.track {
 		conn.EnableStateTracking()
 	}
-	for _, ev := range []string{"001", "JOIN", "PRIVMSG"} {
+	for _, ev := range []string{"001", "JOIN", "PING", "PRIVMSG"} {
 		conn.HandleFunc(ev, s.handler(0, true))
 		conn.HandleFunc(ev, s.handler(1, true))
 		conn.HandleBG(ev, s.handler(2, false))
@@ -270,6 +278,10 @@ func VerifSession() {
 	}
 	close(s.gate)
 	vRunPending()
+	s.mu.Lock()
+	// a background handler that never returns does not hold up the delivery of DISCONNECTED either
+	vAssert(s.discEnter == 1, "DISCONNECTED-not-delayed-by-stuck-background-handler")
+	s.mu.Unlock()
 	close(s.never)
 	vRunPending()
 	s.mu.Lock()
@@ -440,5 +452,40 @@ func VerifC16Background() {
 	vAssert(done && fg == n, "foreground-not-delayed-by-stuck-background")
 	close(never)
 	vRunPending()
+	vReach("end")
+}
+
+// VerifC06CancelDuringConnect: the connect context is cancelled between the
+// successful dial and Connect's return. Whatever Connect reports, the events
+// agree with it: an error means nothing fired and the client is not connected;
+// success means REGISTER fired once and - the context being cancelled - exactly
+// one DISCONNECTED follows.
+func VerifC06CancelDuringConnect() {
+	vSetOpt("schedExplore", 1)
+	vSetOpt("maxSwitches", vParam("SW", 1))
+	vYieldKinds("yield lock")
+	w := vNewLiveWire()
+	ctx, cancel := context.WithCancel(context.Background())
+	d := &vDialer{wire: w, onDial: cancel}
+	vInstallDialer(d)
+	cfg := NewConfig("me")
+	cfg.Server, cfg.Proxy, cfg.PingFreq, cfg.Flood = "srv:1", "vtest://p", 0, true
+	conn := Client(cfg)
+	var mu sync.Mutex
+	disc, reg := 0, 0
+	conn.HandleFunc(DISCONNECTED, func(*Conn, *Line) { mu.Lock(); disc++; mu.Unlock() })
+	conn.HandleFunc(REGISTER, func(*Conn, *Line) { mu.Lock(); reg++; mu.Unlock() })
+	err := conn.ConnectContext(ctx)
+	vRunPending()
+	mu.Lock()
+	if err != nil {
+		vAssert(reg == 0 && disc == 0, "failed-connect-fires-nothing")
+		vAssert(!conn.Connected(), "failed-connect-not-connected")
+	} else {
+		vAssert(reg == 1, "REGISTER-exactly-once")
+		vAssert(disc == 1, "DISCONNECTED-exactly-once")
+		vAssert(!conn.Connected(), "not-connected-at-the-end")
+	}
+	mu.Unlock()
 	vReach("end")
 }
